@@ -403,6 +403,8 @@ pub fn run(prop: &str, tier: &str, replay: Option<&str>) -> i32 {
     }
     if prop == "C04" {
         c04_extras(&mut rep, &judge, thorough);
+        // the automatic serial number is an INTEGER rcgen builds from hash bytes: every class of leading bytes
+        c05_extras(&mut rep, &judge, thorough);
         #[cfg(feature = "crypto")]
         c04_reemission(&mut rep);
         super::c07::add_sections(&mut rep, prop, thorough, false);
@@ -694,19 +696,37 @@ fn c05_extras(rep: &mut Report, judge: &Judge, thorough: bool) {
     // search raw public keys whose SHA-256 (computed by OpenSSL) realises every class
     // (first byte 0..=255) x (second byte high bit): 512 classes; thorough adds 00 00 xx.
     let mut classes: std::collections::BTreeMap<(u8, bool), Vec<u8>> = Default::default();
-    let mut deep: Vec<Vec<u8>> = Vec::new();
+    // deep classes: first byte 00 or 80 (the top bit is cleared by rcgen), second byte 00, third byte with either high bit
+    // (an INTEGER that needs two leading octets removed, or one removed and none added); thorough: three zero octets too
+    let mut deep: std::collections::BTreeMap<(u8, u8, bool), Vec<u8>> = Default::default();
+    let deep_want = if thorough { 6 } else { 4 };
     let mut i: u64 = 0;
-    let budget: u64 = if thorough { 1 << 22 } else { 1 << 16 };
-    while (classes.len() < 512 || (thorough && deep.len() < 4)) && i < budget {
+    let budget: u64 = if thorough { 1 << 27 } else { 1 << 23 };
+    while (classes.len() < 512 || deep.len() < deep_want) && i < budget {
         let mut raw = vec![0u8; 32];
         raw[..8].copy_from_slice(&i.to_be_bytes());
-        let h = ossl_sha(256, &raw);
-        classes.entry((h[0], h[1] & 0x80 != 0)).or_insert_with(|| raw.clone());
-        if h[0] & 0x7f == 0 && h[1] == 0 && deep.len() < 4 {
-            deep.push(raw.clone());
+        let d = ring::digest::digest(&ring::digest::SHA256, &raw);
+        let h = d.as_ref();
+        if classes.len() < 512 {
+            classes.entry((h[0], h[1] & 0x80 != 0)).or_insert_with(|| raw.clone());
+        }
+        if h[0] & 0x7f == 0 && h[1] == 0 {
+            if h[2] != 0 {
+                deep.entry((h[0], 1, h[2] & 0x80 != 0)).or_insert_with(|| raw.clone());
+            } else if thorough {
+                deep.entry((0, 0, h[3] & 0x80 != 0)).or_insert_with(|| raw.clone());
+            }
         }
         i += 1;
     }
+    // the search used ring's SHA-256; the classes are what OpenSSL's says too
+    for ((h0, hb), raw) in classes.iter() {
+        let h = ossl_sha(256, raw);
+        if h[0] != *h0 || (h[1] & 0x80 != 0) != *hb {
+            rep.machinery_error("SHA-256 of ring and OpenSSL disagree".to_string());
+        }
+    }
+    let deep: Vec<Vec<u8>> = deep.values().cloned().collect();
     let mut keys: Vec<Vec<u8>> = classes.values().cloned().collect();
     keys.extend(deep.iter().cloned());
     rep.extra.insert("serial_classes_realised".into(), serde_json::json!(classes.len()));
@@ -714,8 +734,11 @@ fn c05_extras(rep: &mut Report, judge: &Judge, thorough: bool) {
     if classes.len() < 512 {
         rep.machinery_error(format!("only {} of 512 serial classes realised", classes.len()));
     }
+    if deep.len() < deep_want {
+        rep.machinery_error(format!("only {} of {} deep serial classes realised within the search budget", deep.len(), deep_want));
+    }
     let issuer = stub_issuer_ctx(Alg::EcP256, &DnSpec::cn("issuer"), &KeyIdSpec::Sha256, Alg::Ed25519, "pair");
-    let sec = Section::new("sweep/auto-serial-classes", "subject keys realising every (first hash byte, high bit of second byte) class of the automatic serial; self- and issuer-signed");
+    let sec = Section::new("sweep/auto-serial-classes", "subject keys realising every (first hash byte, high bit of second byte) class of the automatic serial, and the classes whose hash starts 00 00 / 80 00 with either high bit in the third octet (thorough: 00 00 00 too); self- and issuer-signed");
     let kids: Vec<KeyIdSpec> = std::iter::once(KeyIdSpec::Sha256).chain(key_id_values().into_iter().filter(|(l, _)| !l.starts_with("nc:")).map(|(_, k)| k)).collect();
     let cases: Vec<(Vec<u8>, bool, usize)> = keys.iter().flat_map(|k| (0..kids.len()).flat_map(move |m| [(k.clone(), false, m), (k.clone(), true, m)])).collect();
     run::sweep_cases(&sec, &cases, &|c| format!("key={:02x?} issuer_signed={} key_id={:?}", &c.0[..8], c.1, kids[c.2]), &|c| {
